@@ -96,13 +96,12 @@ Fixpoint unpack_values (l : list (afld * aty)) (index : Z) (d : bytes) : dres (l
     end
   end.
 
-(* ParseTopics(out, indexed, topics): count check, then toGoType(0, type, topic) one by one *)
-Fixpoint parse_topics (l : list (afld * aty)) (ts : list bytes) : dres (list (afld * aval)) :=
+(* ParseTopics(out, indexed, topics): count check first, then toGoType(0, type, topic) one by one *)
+Fixpoint parse_topics_go (l : list (afld * aty)) (ts : list bytes) : dres (list (afld * aval)) :=
   match l, ts with
-  | [], [] => DOk []
   | (f, t) :: r, tp :: ts' =>
     match to_go_type 0 t tp with
-    | DOk v => match parse_topics r ts' with
+    | DOk v => match parse_topics_go r ts' with
                | DOk vs => DOk ((f, v) :: vs)
                | DErr e => DErr e
                | DPanic => DPanic
@@ -110,8 +109,10 @@ Fixpoint parse_topics (l : list (afld * aty)) (ts : list bytes) : dres (list (af
     | DErr e => DErr e
     | DPanic => DPanic
     end
-  | _, _ => DErr DTopics
+  | _, _ => DOk []
   end.
+Definition parse_topics (l : list (afld * aty)) (ts : list bytes) : dres (list (afld * aval)) :=
+  if negb (length l =? length ts)%nat then DErr DTopics else parse_topics_go l ts.
 
 Definition args_of (indexed : bool) (l : list ainput) : list (afld * aty) :=
   map (fun x => (fst (fst x), snd (fst x))) (filter (fun x => Bool.eqb (snd x) indexed) l).
